@@ -16,7 +16,9 @@ import (
 	"errors"
 	"fmt"
 	"sort"
+	"strings"
 	"sync"
+	"sync/atomic"
 	"time"
 
 	"github.com/high-moctane/mocrelay"
@@ -66,12 +68,13 @@ type c19Case struct {
 	Notes  []string    `json:"notes,omitempty"`
 }
 
-// message types no switch of the middleware knows
-type otherClientMsg struct{}
+// message types no switch of the middleware knows (not zero-sized: distinct values must have
+// distinct addresses, the harness identifies a message by its pointer)
+type otherClientMsg struct{ uid int }
 
 func (*otherClientMsg) ClientMsgLabel() string { return "OTHER" }
 
-type otherServerMsg struct{}
+type otherServerMsg struct{ uid int }
 
 func (*otherServerMsg) ServerMsgLabel() string { return "OTHER" }
 
@@ -88,7 +91,7 @@ func c19Client(m *c19Msg) mocrelay.ClientMsg {
 	case "COUNT":
 		return &mocrelay.ClientCountMsg{SubscriptionID: m.Sub, ReqFilters: []*mocrelay.ReqFilter{{}}}
 	}
-	return &otherClientMsg{}
+	return &otherClientMsg{m.UID}
 }
 
 func c19Server(m *c19Msg) mocrelay.ServerMsg {
@@ -108,7 +111,7 @@ func c19Server(m *c19Msg) mocrelay.ServerMsg {
 	case "CLOSED":
 		return mocrelay.NewServerClosedMsg(m.Sub, "", "bye")
 	}
-	return &otherServerMsg{}
+	return &otherServerMsg{m.UID}
 }
 
 // what arrived, read off the value itself (not off the script)
@@ -166,7 +169,10 @@ type c19Sess struct {
 
 type c19SessKey struct{}
 
-const c19Timeout = 5 * time.Second
+// a wait that exceeds this is recorded as a failure of the case; a case that timed out is run
+// once more with a much longer limit, so that a loaded machine does not produce a false alarm
+const c19Timeout = 2 * time.Second
+const c19TimeoutRetry = 6 * time.Second
 
 var errC19Timeout = errors.New("timeout")
 
@@ -296,10 +302,41 @@ func c19Normalize(groups [][]c19Step) [][]c19Step {
 			out = append(out, ng)
 		}
 	}
+	if out == nil {
+		out = [][]c19Step{}
+	}
 	return out
 }
 
+// c19Confirmed counts cases that timed out even with the long limit.  Once a few are
+// confirmed (a message really is lost), later cases use a short limit and no retry, so that
+// a run against a broken middleware still ends in reasonable time.
+var c19Confirmed atomic.Int32
+
+func c19TimedOut(c *c19Case) bool {
+	for _, n := range c.Notes {
+		if strings.Contains(n, errC19Timeout.Error()) {
+			return true
+		}
+	}
+	return false
+}
+
 func c19Run(c *c19Case) {
+	if c19Confirmed.Load() >= 3 {
+		c19RunT(c, 150*time.Millisecond)
+		return
+	}
+	c19RunT(c, c19Timeout)
+	if !c.Clean && c19TimedOut(c) {
+		c19RunT(c, c19TimeoutRetry)
+		if !c.Clean && c19TimedOut(c) {
+			c19Confirmed.Add(1)
+		}
+	}
+}
+
+func c19RunT(c *c19Case, limit time.Duration) {
 	c.Groups = c19Normalize(c.Groups)
 	c.Obs, c.Inner, c.Outer, c.Notes = []c19Snap{}, []c19View{}, []c19View{}, nil
 	c.Clean = true
@@ -329,7 +366,7 @@ func c19Run(c *c19Case) {
 	}
 
 	do := func(st c19Step) error {
-		tmo := time.After(c19Timeout)
+		tmo := time.After(limit)
 		switch st.Op {
 		case "start":
 			ctx, cancel := context.WithCancel(context.Background())
@@ -490,7 +527,7 @@ func c19Run(c *c19Case) {
 		s.cancel()
 		select {
 		case <-s.done:
-		case <-time.After(c19Timeout):
+		case <-time.After(limit):
 			note("teardown: a session did not end")
 		}
 	}
@@ -633,21 +670,25 @@ func c19Gen(r *common.Rand, thorough bool) [][]c19Step {
 
 func init() {
 	subcmds["c19"] = func(seed uint64, n int, out *common.Out, replay string) {
+		// cases are independent (own registry, own sessions): run them on a few workers, emit in order
+		var results []c19Case
+		var gen func(i int) c19Case
 		if replay != "" {
-			for _, raw := range common.ReadLines(replay) {
+			lines := common.ReadLines(replay)
+			n = len(lines)
+			gen = func(i int) c19Case {
 				var c c19Case
-				if err := json.Unmarshal(raw, &c); err != nil {
+				if err := json.Unmarshal(lines[i], &c); err != nil {
 					common.Fatalf("bad replay case: %v", err)
 				}
-				c19Run(&c)
-				out.Emit(c)
+				return c
 			}
-			return
+		} else {
+			root := common.NewRand(seed)
+			gen = func(i int) c19Case { return c19Case{Groups: c19Gen(root.Fork(uint64(i)), n >= 10000)} }
 		}
-		root := common.NewRand(seed)
-		// cases are independent (own registry, own sessions): run them on a few workers, emit in order
+		results = make([]c19Case, n)
 		const workers = 8
-		results := make([]c19Case, n)
 		var wg sync.WaitGroup
 		jobs := make(chan int)
 		for w := 0; w < workers; w++ {
@@ -655,9 +696,22 @@ func init() {
 			go func() {
 				defer wg.Done()
 				for i := range jobs {
-					r := root.Fork(uint64(i))
-					c := c19Case{Groups: c19Gen(r, n >= 10000)}
+					c := gen(i)
+					before := raceBytes()
 					c19Run(&c)
+					concurrent := false
+					for _, g := range c.Groups {
+						if len(g) > 1 {
+							concurrent = true
+						}
+					}
+					if concurrent && raceBytes() > before {
+						// attribution is per time window and only to cases that inject steps concurrently:
+						// with several workers a neighbouring case may be marked as well, and the detector
+						// reports each racing pair of stacks once per process
+						c.Clean = false
+						c.Notes = append(c.Notes, "the race detector reported a data race while this case ran (report on the harness's stderr)")
+					}
 					results[i] = c
 				}
 			}()
